@@ -163,13 +163,12 @@ const seqAxioms = `
 (declare-fun drop_$S ($S Int) $S)
 (declare-fun upd_$S ($S Int $E) $S)
 (declare-fun eq_$S ($S $S) Bool)
-(assert (forall ((s $S)) (! (and (>= (len_$S s) 0) (<= (len_$S s) 4611686018427387903)) :pattern ((len_$S s)))))
+(assert (forall ((s $S)) (! (>= (len_$S s) 0) :pattern ((len_$S s)))))
 (assert (= (len_$S empty_$S) 0))
 (declare-fun isnil_$S ($S) Bool)
 (declare-fun emptynn_$S () $S)
 (assert (isnil_$S empty_$S))
-(assert (not (isnil_$S emptynn_$S)))
-(assert (= (len_$S emptynn_$S) 0))
+(assert (= emptynn_$S empty_$S))
 (assert (forall ((s $S)) (! (=> (isnil_$S s) (= (len_$S s) 0)) :pattern ((isnil_$S s)))))
 (assert (forall ((s $S) (v $E)) (! (not (isnil_$S (build_$S s v))) :pattern ((build_$S s v)))))
 (assert (forall ((s $S) (x $E)) (! (= (has_$S s x) (exists ((i Int)) (! (and (<= 0 i) (< i (len_$S s)) (= (at_$S s i) x)) :pattern ((at_$S s i))))) :pattern ((has_$S s x)))))
@@ -201,7 +200,8 @@ const seqAxioms = `
 (assert (forall ((s $S) (i Int) (v $E)) (! (= (len_$S (upd_$S s i v)) (len_$S s)) :pattern ((upd_$S s i v)))))
 (assert (forall ((s $S) (i Int) (v $E) (j Int)) (! (= (at_$S (upd_$S s i v) j) (ite (= i j) v (at_$S s j))) :pattern ((at_$S (upd_$S s i v) j)))))
 (assert (forall ((a $S) (b $S)) (! (= (eq_$S a b) (and (= (len_$S a) (len_$S b)) (forall ((i Int)) (! (=> (and (<= 0 i) (< i (len_$S a))) (= (at_$S a i) (at_$S b i))) :pattern ((at_$S a i)) :pattern ((at_$S b i)))))) :pattern ((eq_$S a b)))))
-(assert (forall ((a $S) (b $S)) (! (=> (and (eq_$S a b) (= (isnil_$S a) (isnil_$S b))) (= a b)) :pattern ((eq_$S a b)))))
+(assert (forall ((a $S) (b $S)) (! (=> (eq_$S a b) (= a b)) :pattern ((eq_$S a b)))))
+(assert (forall ((s $S)) (! (= (isnil_$S s) (= (len_$S s) 0)) :pattern ((isnil_$S s)))))
 `
 
 // smallSeq: bounded datatype sequences (length <= 2), all operations defined. Never used to prove.
@@ -230,7 +230,7 @@ const smallSeqDefs = `
 (define-fun cat_$S ((a $S) (b $S)) $S (ite (= (len_$S a) 0) (norm_$S b) (ite (= (len_$S b) 0) (norm_$S a) (mkseq_$S 2 (e0_$S a) (ite (= (len_$S a) 1) (e0_$S b) (e1_$S a))))))
 (define-fun upd_$S ((s $S) (i Int) (v $E)) $S (ite (= i 0) (mkseq_$S (n_$S s) v (e1_$S s)) (ite (= i 1) (mkseq_$S (n_$S s) (e0_$S s) v) s)))
 (define-fun eq_$S ((a $S) (b $S)) Bool (= (norm_$S a) (norm_$S b)))
-(define-fun isnil_$S ((s $S)) Bool (< (n_$S s) 0))
+(define-fun isnil_$S ((s $S)) Bool (<= (n_$S s) 0))
 (define-fun emptynn_$S () $S (mkseq_$S 0 dflt_$S dflt_$S))
 `
 
